@@ -42,6 +42,7 @@ fn main() {
         Some("C01") => std::process::exit(props::c01::run(&report::parse_args(&args[1..]), "C01")),
         Some("C03") => std::process::exit(props::c01::run(&report::parse_args(&args[1..]), "C03")),
         Some("C04") => std::process::exit(props::c04::run(&report::parse_args(&args[1..]))),
+        Some("C05") => std::process::exit(props::c05::run(&report::parse_args(&args[1..]))),
         Some("C06") => std::process::exit(props::c06::run(&report::parse_args(&args[1..]))),
         Some("C07") => std::process::exit(props::c07::run(&report::parse_args(&args[1..]))),
         Some("C14") => std::process::exit(props::c14::run(&report::parse_args(&args[1..]))),
